@@ -282,8 +282,14 @@ def saVisit : Expr → Outcome (OTree × OKind)
       if ka == .list || kb == .list then .foreign "unmodelled"
       else pure (on2 (arithName op) a b, .expr)
   | .compare op l r => do
-      let (a, ka) ← saVisit l
-      let (b, kb) ← saVisit r
+      let (a0, ka0) ← saVisit l
+      let (b0, kb0) ← saVisit r
+      -- `null eq x` / `null ne x` are visited as `x eq null` / `x ne null` (fix 6358e99: SQLAlchemy renders IS [NOT] NULL only when NULL is the right operand)
+      let swap := isNullLit l && (op == .eq || op == .ne)
+      let a := if swap then b0 else a0
+      let ka := if swap then kb0 else ka0
+      let b := if swap then a0 else b0
+      let kb := if swap then ka0 else kb0
       if op == .in_ then
         (if ka == .list then .foreign "AttributeError" else pure (on2 "in" a b, .cond))
       else if ka == .list || kb == .list then .foreign "unmodelled"
